@@ -1383,27 +1383,34 @@ def d3_table(ctx):
 
 
 
-def developer_assertion(F, s):
-    """A `debug_assert*!` that no rule proves is the developer's claim of an invariant, evaluated in debug builds only.  It cannot
-    make the two build profiles differ, nor change a result, unless it FAILS - which static rules in reach cannot decide in
-    general.  It is accepted as an assumption (and listed as such) when (i) evaluating its condition has no side effect - every
-    call inside the expansion takes its arguments by value or shared reference - and (ii) no unsafe operation follows it before
-    the next turn of an enclosing loop or the end of the function (where an assertion states the safety condition of unchecked
-    code - VM::pop, GC::mark - it must be proven, not assumed)."""
-    mac = macro_of(s['span'])
-    fn = s['f']
-    from rules.unsafe_inv import user_site
-    if mac not in ('debug_assert', 'debug_assert_eq', 'debug_assert_ne'):
-        # a machine check inside a helper that is new and is only ever called from the condition of a debug assertion
-        # (`debug_assert!(self.accounts_balance())`): it is evaluated as part of that condition
-        inl = fn.blocks[s['block']].get('inl') or ()
-        for h in inl:
-            calls_ = [bl for bl in fn.blocks if bl['term'].get('inl_call') == h]
+def _pinned_lib():
+    try:
+        from mirlib import load_pinned
+        p_ = load_pinned()
+        return set(p_['lib']) if p_ and 'lib' in p_ else None
+    except Exception:
+        return None
+
+
+def _helper_in_assertion(F, fn, h, closure=None):
+    """None: helper h is not spliced into fn; False: it is, but serves more than debug assertions (or is not read-only);
+    ('DA', why): every result of it in fn feeds nothing but the test of an acceptable debug assertion.
+    With `closure` (the path of a closure written in fn) the same question is asked of the closure value: it is handed only to
+    calls whose results feed nothing but such a test (`debug_assert!(list.iter().all(|x| ..))`)."""
+    from rules.shared import LocalFlow
+    if True:
+        if True:
+            calls_ = [bl for bl in fn.blocks if bl['term'].get('inl_call') == h] if closure is None else [None]
             if not calls_:
-                continue
+                return None
             # what the helper returned (the locals its spliced `return`s assign) must feed nothing but the test of a debug
             # assertion: the switch right before an assertion's panic
-            rets = {st['place']['local'] for bl in fn.blocks for st in bl['stmts'] if st.get('inl_ret') == h}
+            rets = {st['place']['local'] for bl in fn.blocks for st in bl['stmts'] if h is not None and st.get('inl_ret') == h}
+            if closure is not None:
+                rets = {st['place']['local'] for bl in fn.blocks for st in bl['stmts']
+                        if st['k'] == 'assign' and st['rv']['k'] == 'aggregate' and st['rv'].get('closure') == closure}
+                if not rets:
+                    return None
             from rules.shared import LocalFlow
             lf = LocalFlow(fn)
             fed = set()
@@ -1424,26 +1431,88 @@ def developer_assertion(F, s):
                         break
                     cur_ = pr_[0]
             other_uses = [b_ for b_ in range(len(fn.blocks)) if fn.term(b_)['k'] == 'switch' and op_base_local(fn.term(b_).get('op')) in fed and b_ not in {tb for _, tb in tests}]
-            if tests and not other_uses:
+            if tests and not other_uses and closure is None:
                 calls_ = [bl for bl in calls_]
                 for bl in calls_:
                     bl['term'].setdefault('_da_lines', sorted({ln for ln, _ in tests}))
             macs_ = ['debug_assert' if (tests and not other_uses) else None]
             if all(m_ in ('debug_assert', 'debug_assert_eq', 'debug_assert_ne') for m_ in macs_):
-                # pure helper: no call in it takes a mutable reference
+                # pure helper: no call in it takes a mutable reference - except to a variable of the helper itself (a work list, a
+                # table it fills while it scans): owned locals that are assigned only inside the helper's own blocks
+                inside = {b_ for b_ in range(len(fn.blocks)) if h in (fn.blocks[b_].get('inl') or ())}
+                if closure is not None:
+                    # the calls the closure value (or what was computed from it) is handed to
+                    inside = {b_ for b_, t_ in fn.calls() if any(op_base_local(a_) in fed for a_ in t_['args'])}
+                own = set()
+                for l_, ds_ in fn.defs().items():
+                    if ds_ and (closure is not None or all(d_[1] in inside for d_ in ds_)) and not (fn.local_ty(l_) or '').startswith(('&', '*')) and l_ > fn.arg_count:
+                        own.add(l_)
                 for b_, t_ in fn.calls():
-                    if h in (fn.blocks[b_].get('inl') or ()):
+                    if (h in (fn.blocks[b_].get('inl') or ())) if closure is None else (b_ in inside):
                         for a_ in t_['args']:
                             l_ = op_base_local(a_)
                             if l_ is not None and fn.local_ty(l_).startswith('&') and ' mut ' in fn.local_ty(l_)[:24]:
-                                return None
+                                if lf.mut_target(a_) in own:
+                                    continue
+                                return False
                 # the assertions it serves must themselves be acceptable
                 lines_ = {ln for ln, _ in tests}
                 outer = [s2 for s2 in _ALL_SITES[0] if s2['f'] is fn and s2['kind'] == 'call' and macro_of(s2['span']) in ('debug_assert', 'debug_assert_eq', 'debug_assert_ne')
                          and s2['span'].get('line') in lines_] if _ALL_SITES[0] else []
                 if outer and all(developer_assertion(F, s2) for s2 in outer):
                     return 'DA', 'a machine check inside a helper that only evaluates the condition of a debug assertion: part of that ASSUMPTION'
-                return None
+                return False
+        return False
+
+
+def developer_assertion(F, s):
+    """A `debug_assert*!` that no rule proves is the developer's claim of an invariant, evaluated in debug builds only.  It cannot
+    make the two build profiles differ, nor change a result, unless it FAILS - which static rules in reach cannot decide in
+    general.  It is accepted as an assumption (and listed as such) when (i) evaluating its condition has no side effect - every
+    call inside the expansion takes its arguments by value or shared reference - and (ii) no unsafe operation follows it before
+    the next turn of an enclosing loop or the end of the function (where an assertion states the safety condition of unchecked
+    code - VM::pop, GC::mark - it must be proven, not assumed)."""
+    mac = macro_of(s['span'])
+    fn = s['f']
+    from rules.unsafe_inv import user_site
+    if mac not in ('debug_assert', 'debug_assert_eq', 'debug_assert_ne'):
+        # a machine check inside a helper that is new and is only ever called from the condition of a debug assertion
+        # (`debug_assert!(self.accounts_balance())`): it is evaluated as part of that condition
+        # ... or inside a closure written in the condition of a debug assertion of a function of the tree
+        # (`debug_assert!(ctx.breaks.iter().all(|&ip| self.instructions[ip] == ..))`)
+        if '::{closure' in fn.path:
+            parent = fn.path.rsplit('::{closure', 1)[0]
+            if parent in F.fns:
+                r_ = _helper_in_assertion(F, F.fns[parent], None, closure=fn.path)
+                if r_:
+                    for b_, t_ in fn.calls():
+                        for a_ in t_['args']:
+                            l_ = op_base_local(a_)
+                            if l_ is not None and fn.local_ty(l_).startswith('&') and ' mut ' in fn.local_ty(l_)[:24]:
+                                return None
+                    return 'DA', 'a machine check inside a closure that only evaluates the condition of a debug assertion: part of that ASSUMPTION'
+        inl = fn.blocks[s['block']].get('inl') or ()
+        for h in inl:
+            r_ = _helper_in_assertion(F, fn, h)
+            if r_ is not None:
+                return r_ or None
+        # ... or inside a closure written in such a helper (`targets.iter().all(|t| starts[*t])`): the closure is part of the helper,
+        # which every function that contains it evaluates only as the condition of a debug assertion
+        if '::{closure' in fn.path and not inl:
+            parent = fn.path.split('::{closure')[0]
+            pin_ = _pinned_lib()
+            if pin_ is not None and parent not in pin_:
+                hosts = [g for g in F.all_fns if g.crate == 'lib' and any(parent in (bl.get('inl') or ()) for bl in g.blocks)]
+                if hosts:
+                    rs_ = [_helper_in_assertion(F, g, parent) for g in hosts]
+                    if all(r for r in rs_):
+                        # the closure itself must be read-only too
+                        for b_, t_ in fn.calls():
+                            for a_ in t_['args']:
+                                l_ = op_base_local(a_)
+                                if l_ is not None and fn.local_ty(l_).startswith('&') and ' mut ' in fn.local_ty(l_)[:24]:
+                                    return None
+                        return 'DA', 'a machine check inside a closure of a helper that only evaluates the condition of a debug assertion: part of that ASSUMPTION'
         return None
     if fn.j.get('unsafe'):
         return None
@@ -1465,6 +1534,29 @@ def developer_assertion(F, s):
             test_block = preds[0]
             break
         cur = preds[0]
+    if cont is None:
+        # a condition written with && / ||: several tests lead to the one failure block.  Walk back from it through blocks that
+        # only pass control on, to the switches that decide; what follows the assertion is what those switches reach otherwise
+        fail = {s['block']}
+        work = [s['block']]
+        tests_ = set()
+        okw = True
+        for _ in range(40):
+            if not work:
+                break
+            x = work.pop()
+            for p_ in fn.pred(x):
+                tp_ = fn.term(p_)
+                if tp_['k'] == 'switch':
+                    tests_.add(p_)
+                elif tp_['k'] == 'goto' and len(fn.succ(p_)) == 1 and p_ not in fail:
+                    fail.add(p_)
+                    work.append(p_)
+                else:
+                    okw = False
+        if okw and tests_ and not work:
+            cont = sorted({x for tb_ in tests_ for x in fn.succ(tb_) if x not in fail and x not in tests_})
+            test_block = min(tests_)
     if cont is None:
         return None
     # ... up to the next loop of any kind: what runs inside a later loop (the dispatch loop after the set-up of run) is guarded by
@@ -1531,7 +1623,9 @@ def verdict_for(ctx, s, rows=None, cache=None):
                     verdict = (True, 'ENV: failure of host I/O (%s), not of an input text' % src[1])
         if verdict is None:
             for (rf, rw, rule, ver) in rows:
-                if rf != s['fn'] and rf != s['fn'].split('::{closure')[0] and not (rf.endswith('*') and s['fn'].startswith(rf[:-1])):
+                # a site inside a helper that was spliced into this function also answers to the rows of the helper's module
+                origins_ = [s['fn'], s['fn'].split('::{closure')[0]] + [h_ for h_ in (fn.blocks[s['block']].get('inl') or ()) if isinstance(h_, str)]
+                if not any(rf == o_ or (rf.endswith('*') and o_.startswith(rf[:-1])) for o_ in origins_):
                     continue
                 if rw is not None and not any(w in what for w in rw.split('|')):
                     continue
